@@ -390,7 +390,15 @@ class Interp(object):
             if v.op != "const":
                 f = dag.numeric(v) if dag.is_ground(v) else None
                 if f is None:
-                    raise Unsupported("fptosi of a symbolic double")
+                    # symbolic double -> int: accepted only if the harness's assumptions pin the integer part
+                    from .. import sym
+                    x = sym.S(v)
+                    for n in getattr(self, "floor_hints", ()):
+                        if n >= 0 and bool(x >= n) and bool(x < n + 1):
+                            f = n
+                            break
+                    if f is None:
+                        raise Unsupported("fptosi of a symbolic double whose integer part is not fixed by the assumptions")
                 env[dst] = int(f)
             else:
                 env[dst] = int(v.args[0])
